@@ -224,6 +224,11 @@ def run_property(prop_name, tier):
     budget = prop.BUDGET_S[tier]
     deadline = t0 + budget
     open_f, fixed_f = findings_mod.load(pid)
+    rdir = os.path.join(env.VERIF, 'replays')
+    if os.path.isdir(rdir):
+        for fn in os.listdir(rdir):
+            if fn.startswith(pid + '-'):
+                os.unlink(os.path.join(rdir, fn))
     notes = []
     violations = []
     by_finding = collections.Counter()
